@@ -355,6 +355,20 @@ def check_property_file(pid):
     return p.returncode == 0, theorems, examples, p.stdout, p.stdout
 
 
+def coqchk_property(pid):
+    """Thorough tier: re-checks Properties/<pid>.vo and everything it depends on with the independent
+    checker coqchk and returns (ok, axioms_text)."""
+    p = run(["timeout", "3000", "coqchk", "-silent", "-o", "-Q", "theories", "Snaps", "Snaps.Properties." + pid],
+            cwd=COQ, check=False)
+    out = p.stdout or ""
+    m = re.search(r"\* Axioms:\s*(.*?)\n\s*\n", out, re.S)
+    ax = m.group(1).strip() if m else "?"
+    clean = all(re.search(r"\* %s:\s*<none>" % re.escape(k), out) for k in
+                ("Constants/Inductives relying on type-in-type", "Constants/Inductives relying on unsafe (co)fixpoints",
+                 "Inductives whose positivity is assumed"))
+    return p.returncode == 0 and clean, ax, out[-800:]
+
+
 FORBIDDEN = re.compile(r"\b(Admitted|admit|Axiom|Parameter|Conjecture|Unset Guard|bypass_check|type-in-type|impredicative-set)\b")
 
 
